@@ -33,7 +33,7 @@ def _run(rule_fn):
 
 
 def _cases():
-    from . import r1, r2, r3, r8
+    from . import r1, r2, r3, r8, r9
 
     return {
         "R2-count-narrowed": (lambda c, r: r2.check_no_count_narrowing(None, 0)(c, r, config="default"), "zero_digits|", ["zero_digits_mod"]),
@@ -43,6 +43,7 @@ def _cases():
         "R3c-digit-step": (lambda c, r: r3.check_digit_step_checked(c, r, config="default"), "borrow_one|- 1", ["bump_low"]),
         "R1-constant-cut": (lambda c, r: r1.check_no_constant_cut(c, r, config="default"), "add_assign|resize(2)", []),
         "R2-operand-narrowed": (lambda c, r: r2.check_no_operand_narrowing(c, r, config="default"), "Shl<u64>", []),
+        "R9-carry-exit": (lambda c, r: r9.check_carry_exits(c, r, config="default"), "twice_negated|", ["twice_negated_ok"]),
         "R8-mul-reaches-long-division": (lambda c, r: r8.check_mul_calls_no_long_division(c, r, config="default"), "div_rem_core", []),
     }
 
